@@ -1,5 +1,6 @@
 (* C12 - the server's Maximum Packet Size is honoured exactly. *)
-From Poster Require Import Model.Client Proofs.ClientP Proofs.QuotaP Proofs.ResumeP Proofs.WireP.
+From Poster Require Import Model.Client Proofs.CodecP Proofs.ClientP Proofs.QuotaP Proofs.ResumeP Proofs.WireP Proofs.MaxPktP.
+From Coq Require Import Lia.
 
 (* M is the value announced by the CONNACK of this connection; a CONNACK that announces none leaves no limit, whatever
    an earlier connection of the same Context had announced (finding F20, fixed in f454533) *)
@@ -46,3 +47,22 @@ Example C12_nonvacuous :
   let s := set_c sys_init (mkctx [] [] [] [] 5 5 (Some 3) 0 None) in
   size_ok (c s) [192; 0] = true /\ size_ok (c s) [48; 2; 0; 0] = false.
 Proof. vm_compute. auto. Qed.
+
+(* the top of the range (Proofs/MaxPktP.v): every packet the encoders build is `enc_packet hdr fields` (or one of the constant
+   2- and 4-byte packets); none is longer than 1 + 4 + 268 435 455 = 268 435 460 bytes, so a Maximum Packet Size at or above
+   that refuses nothing - and in general the limit is compared with the length of the WHOLE packet, fixed header byte and
+   remaining-length field included, and with nothing else. (Seeded defect C12-9B clamped M to 268 435 455.) *)
+Theorem C12_protocol_maximum : forall (x : ctx) (hdr : N) (fs : list fld) (b : bytes) (m : N),
+  Forall wf_fld fs -> enc_packet hdr fs = Ok b -> maxpkt x = Some m -> 268435460 <= m ->
+  lenN b <= 268435460 /\ size_ok x b = true.
+Proof.
+  intros x hdr fs b m Hw He Hm Hle. split; [exact (packet_le_pmax hdr fs b Hw He)|exact (big_limit_refuses_nothing x hdr fs b m Hw He Hm Hle)].
+Qed.
+Print Assumptions C12_protocol_maximum.
+Theorem C12_limit_exact : forall (x : ctx) (b : bytes) (m : N), maxpkt x = Some m -> size_ok x b = (lenN b <=? m).
+Proof. exact size_ok_exact. Qed.
+Print Assumptions C12_limit_exact.
+Example C12_protocol_maximum_nonvacuous :
+  let x := mkctx [] [] [] [] 5 5 (Some 268435460) 0 None in
+  Forall wf_fld [F16 7; FProps []] /\ enc_packet 162 [F16 7; FProps []] = Ok [162; 3; 0; 7; 0] /\ size_ok x [162; 3; 0; 7; 0] = true.
+Proof. split; [repeat constructor; cbn; try lia|vm_compute; auto]. Qed.
